@@ -15,6 +15,7 @@ import (
 	"strconv"
 	"strings"
 	"time"
+	"unicode/utf8"
 )
 
 // FilterFunc is a function that can be used as a filter
@@ -1126,7 +1127,8 @@ func length(v interface{}) (int, error) {
 
 	switch value := v.(type) {
 	case string:
-		return len(value), nil
+		// The length of a string is its number of characters, not bytes
+		return utf8.RuneCountInString(value), nil
 	case []interface{}:
 		return len(value), nil
 	case map[string]interface{}:
@@ -1136,7 +1138,9 @@ func length(v interface{}) (int, error) {
 	// Use reflection for other types
 	rv := reflect.ValueOf(v)
 	switch rv.Kind() {
-	case reflect.Array, reflect.Slice, reflect.Map, reflect.String:
+	case reflect.String:
+		return utf8.RuneCountInString(rv.String()), nil
+	case reflect.Array, reflect.Slice, reflect.Map:
 		return rv.Len(), nil
 	}
 
@@ -1377,6 +1381,18 @@ func (e *CoreExtension) filterTitle(value interface{}, args ...interface{}) (int
 	return strings.Join(words, " "), nil
 }
 
+// firstChar returns the first character (not byte) of s
+func firstChar(s string) string {
+	_, size := utf8.DecodeRuneInString(s)
+	return s[:size]
+}
+
+// lastChar returns the last character (not byte) of s
+func lastChar(s string) string {
+	_, size := utf8.DecodeLastRuneInString(s)
+	return s[len(s)-size:]
+}
+
 func (e *CoreExtension) filterFirst(value interface{}, args ...interface{}) (interface{}, error) {
 	if value == nil {
 		return nil, nil
@@ -1384,10 +1400,7 @@ func (e *CoreExtension) filterFirst(value interface{}, args ...interface{}) (int
 
 	switch v := value.(type) {
 	case string:
-		if len(v) > 0 {
-			return string(v[0]), nil
-		}
-		return "", nil
+		return firstChar(v), nil
 	case []interface{}:
 		if len(v) > 0 {
 			return v[0], nil
@@ -1404,11 +1417,7 @@ func (e *CoreExtension) filterFirst(value interface{}, args ...interface{}) (int
 	rv := reflect.ValueOf(value)
 	switch rv.Kind() {
 	case reflect.String:
-		s := rv.String()
-		if len(s) > 0 {
-			return string(s[0]), nil
-		}
-		return "", nil
+		return firstChar(rv.String()), nil
 	case reflect.Array, reflect.Slice:
 		if rv.Len() > 0 {
 			return rv.Index(0).Interface(), nil
@@ -1431,10 +1440,7 @@ func (e *CoreExtension) filterLast(value interface{}, args ...interface{}) (inte
 
 	switch v := value.(type) {
 	case string:
-		if len(v) > 0 {
-			return string(v[len(v)-1]), nil
-		}
-		return "", nil
+		return lastChar(v), nil
 	case []interface{}:
 		if len(v) > 0 {
 			return v[len(v)-1], nil
@@ -1446,11 +1452,7 @@ func (e *CoreExtension) filterLast(value interface{}, args ...interface{}) (inte
 	rv := reflect.ValueOf(value)
 	switch rv.Kind() {
 	case reflect.String:
-		s := rv.String()
-		if len(s) > 0 {
-			return string(s[len(s)-1]), nil
-		}
-		return "", nil
+		return lastChar(rv.String()), nil
 	case reflect.Array, reflect.Slice:
 		if rv.Len() > 0 {
 			return rv.Index(rv.Len() - 1).Interface(), nil
